@@ -152,6 +152,16 @@ pub fn run_c09(cfg: &ShardCfg, out: &mut ShardOut) {
         out.counters.add("prefix-loads", bytes.len() as u64);
         // 2. real partial writes of save() (the kernel cuts the write)
         if bad.is_none() {
+            // an earlier state of the same kind of graph whose complete image may already be at the path
+            let mut prev_graph = crate::shim::new_graph(n, cap);
+            let _ = guarded(|| {
+                prev_graph.add(0);
+                if cap > 1 {
+                    prev_graph.add(cap - 1);
+                    prev_graph.bind(0, cap - 1, sodg::Label::Alpha(0));
+                    prev_graph.put(cap - 1, &sodg::Hex::from_vec(vec![7u8; 12]));
+                }
+            });
             let mut ks: Vec<usize> = vec![0, 1, 2, 7, 8, 9, bytes.len() - 1, bytes.len().saturating_sub(2), bytes.len() / 2];
             let extra = if cfg.thorough { 55 } else { 23 };
             for _ in 0..extra {
@@ -159,7 +169,20 @@ pub fn run_c09(cfg: &ShardCfg, out: &mut ShardOut) {
             }
             ks.retain(|k| *k < bytes.len());
             for k in ks {
+                // the cut write lands on a fresh path or on one that holds an earlier, complete image of a graph
+                // (a crash while saving over the previous image): whatever save() does with the old file, the
+                // truncated new one must not load
+                let over_old = rng.chance(1, 2);
                 let _ = std::fs::remove_file(&path);
+                if over_old {
+                    let wrote = guarded(|| prev_graph.save(&path));
+                    if !matches!(wrote, Ok(Ok(_))) {
+                        out.counters.inc("earlier-image-not-written");
+                        let _ = std::fs::remove_file(&path);
+                    } else {
+                        out.counters.inc("partial-writes-over-an-earlier-complete-image");
+                    }
+                }
                 let old = set_fsize_limit(Some(k as u64));
                 let r = guarded(|| s.g.save(&path));
                 set_fsize_limit(Some(old));
